@@ -15,7 +15,7 @@
       the code in /repo (which part of `_data` the method reads, what the
       constructor resets, which attribute the subclass re-attaches);
    4. programs (lists of operations) and their runs on both machines;
-   5. read-only properties as state transformers (Vector3d.azimuth writes). *)
+   5. read-only properties as state transformers. *)
 From Coq Require Import ZArith List Bool Arith Lia.
 From Verif Require Import Scalar NdIndex.
 Import ListNotations.
@@ -368,10 +368,13 @@ Definition base_reshape (dims : list Z) (x : obj V) : option (obj V) :=
   | Some (s', d'), Some (s'', r') => Some (set_rows (mk s' d') s'' r')
   | _, _ => None end.
 Definition base_transpose (axes : option (list nat)) (x : obj V) : option (obj V) :=
-  (* 1-D: `return self`; otherwise cls(self.data.transpose(...)) *)
+  (* 1-D: `return self`; otherwise obj = cls(self.data.transpose(...));
+     obj._data = self._data.transpose(...) *)
   if Nat.eqb (length (oshape x)) 1 then Some x else
-  match apply_plan (v_dflt vf) (o_data x) (plan_transpose (oshape x) axes) with
-  | Some (s', d') => Some (mk s' d') | None => None end.
+  match apply_plan (v_dflt vf) (o_data x) (plan_transpose (oshape x) axes),
+        apply_plan drow (orows x) (plan_transpose (oshape x) axes) with
+  | Some (s', d'), Some (s'', r') => Some (set_rows (mk s' d') s'' r')
+  | _, _ => None end.
 Definition base_unit (x : obj V) : option (obj V) :=
   Some (mk (oshape x) (map (v_unit vf) (o_data x))).
 Definition base_stack (xs : list (obj V)) : option (obj V) :=
@@ -391,7 +394,10 @@ Definition quat_invert (x : obj V) : option (obj V) :=
 Definition quat_neg (x : obj V) : option (obj V) :=
   Some (mk (oshape x) (map (v_neg vf) (o_data x))).
 
-(* ---- Rotation(Quaternion): widened data; overrides getitem, invert, neg, flatten *)
+(* ---- Rotation(Quaternion): widened data; overrides unit, getitem, invert, neg, flatten *)
+Definition rot_unit (x : obj V) : option (obj V) :=
+  (* R = super().unit; R.improper = self.improper *)
+  obind (base_unit x) (fun R => Some (set_flags R (o_flags x))).
 Definition rot_getitem (k : key) (x : obj V) : option (obj V) :=
   (* R = super().__getitem__(key); R.improper = self.improper[key] *)
   match base_getitem k x, apply_plan false (o_flags x) (plan_get (oshape x) k) with
@@ -408,8 +414,12 @@ Definition rot_flatten (x : obj V) : option (obj V) :=
   | Some R, Some (_, fl) => Some (set_flags R fl)
   | _, _ => None end.
 
-(* ---- Misorientation(Rotation): re-attaches _symmetry in getitem, invert
-   (reversed), reshape, flatten, squeeze, transpose -- NOT in unit, neg *)
+(* ---- Misorientation(Rotation): re-attaches _symmetry in unit, getitem,
+   invert (reversed), neg, reshape, flatten, squeeze, transpose *)
+Definition mis_unit (x : obj V) : option (obj V) :=
+  obind (rot_unit x) (fun M => Some (attach_sym M x)).
+Definition mis_neg (x : obj V) : option (obj V) :=
+  obind (rot_neg x) (fun M => Some (attach_sym M x)).
 Definition mis_getitem (k : key) (x : obj V) : option (obj V) :=
   obind (rot_getitem k x) (fun M => Some (attach_sym M x)).
 Definition mis_invert (x : obj V) : option (obj V) :=
@@ -425,18 +435,18 @@ Definition mis_transpose (axes : option (list nat)) (x : obj V) : option (obj V)
 
 (* ---- Orientation(Misorientation): overrides unit, invert, neg *)
 Definition ori_unit (x : obj V) : option (obj V) :=
-  obind (base_unit x) (fun O => Some (attach_ori_sym O x)).
+  obind (mis_unit x) (fun O => Some (attach_ori_sym O x)).
 Definition ori_invert (x : obj V) : option (obj V) :=
   obind (mis_invert x) (fun O => Some (attach_ori_sym O x)).
 Definition ori_neg (x : obj V) : option (obj V) :=
-  obind (rot_neg x) (fun O => Some (attach_ori_sym O x)).
+  obind (mis_neg x) (fun O => Some (attach_ori_sym O x)).
 
 (* ---- Vector3d(Object3d): only neg; no __invert__ *)
 Definition vec_neg (x : obj V) : option (obj V) :=
   Some (mk (oshape x) (map (v_neg vf) (o_data x))).
 
 (* ---- Miller(Vector3d): re-attaches phase and coordinate format in unit,
-   getitem, flatten, transpose, reshape -- NOT in squeeze, neg *)
+   getitem, neg, flatten, transpose, reshape, squeeze *)
 Definition data_only (x : obj V) : obj V := mk (oshape x) (o_data x).
 Definition mil_wrap (r : option (obj V)) (self : obj V) : option (obj V) :=
   (* Miller(xyz=<result>.data, phase=self.phase) + coordinate format *)
@@ -448,6 +458,14 @@ Definition mil_transpose (axes : option (list nat)) (x : obj V) : option (obj V)
   mil_wrap (base_transpose axes x) x.
 Definition mil_reshape (dims : list Z) (x : obj V) : option (obj V) :=
   mil_wrap (base_reshape dims x) x.
+Definition mil_neg (x : obj V) : option (obj V) :=
+  (* Miller(xyz=-self.data, phase=self.phase) + coordinate format *)
+  Some (attach_miller (mk (oshape x) (map (v_neg vf) (o_data x))) x).
+Definition mil_squeeze (x : obj V) : option (obj V) :=
+  (* Miller(xyz=atleast_2d(self.data.squeeze()), phase=self.phase) + coordinate
+     format; Object3d.squeeze (which cannot rebuild a Miller) is not called *)
+  match apply_plan (v_dflt vf) (o_data x) (plan_squeeze (oshape x)) with
+  | Some (s', d') => Some (attach_miller (mk s' d') x) | None => None end.
 
 (* ---- method resolution *)
 Definition m_getitem (c : cls) (k : key) (x : obj V) : option (obj V) :=
@@ -479,13 +497,16 @@ Definition m_transpose (c : cls) (axes : option (list nat)) (x : obj V) : option
 Definition m_squeeze (c : cls) (x : obj V) : option (obj V) :=
   match c with
   | CMis | COri => mis_squeeze c x
+  | CMil => mil_squeeze x
   | _ => base_squeeze c x
   end.
 Definition m_unit (c : cls) (x : obj V) : option (obj V) :=
   match c with
+  | CQuat | CVec => base_unit x
+  | CRot => rot_unit x
+  | CMis => mis_unit x
   | COri => ori_unit x
   | CMil => mil_unit x
-  | _ => base_unit x
   end.
 Definition m_invert (c : cls) (x : obj V) : option (obj V) :=
   match c with
@@ -498,9 +519,11 @@ Definition m_invert (c : cls) (x : obj V) : option (obj V) :=
 Definition m_neg (c : cls) (x : obj V) : option (obj V) :=
   match c with
   | CQuat => quat_neg x
-  | CRot | CMis => rot_neg x
+  | CRot => rot_neg x
+  | CMis => mis_neg x
   | COri => ori_neg x
-  | CVec | CMil => vec_neg x
+  | CVec => vec_neg x
+  | CMil => mil_neg x
   end.
 Definition m_eop (c : cls) (e : eop) (x : obj V) : option (obj V) :=
   match e with
@@ -528,32 +551,8 @@ Fixpoint run (step : op -> obj V -> option (obj V)) (p : list op) (x : obj V) : 
   | o :: r => match step o x with Some x' => run step r x' | None => None end
   end.
 
-(* where the faithful machine is allowed to differ from the specification:
-   exactly the strata of the recorded findings *)
-Definition noflags (x : obj V) : bool := forallb (fun r => negb (snd r)) (orows x).
-Definition safe_eop (c : cls) (e : eop) (x : obj V) : bool :=
-  match e with
-  | EUnit => (negb (is_rot c) || noflags x)
-             && (match c with CMis => meta_eqb (ometa x) meta0 | _ => true end)
-  | ENeg => match c with CMis | CMil => meta_eqb (ometa x) meta0 | _ => true end
-  | _ => true
-  end.
-Definition safe_step (c : cls) (o : op) (x : obj V) : bool :=
-  match o with
-  | OTranspose _ => negb (is_rot c) || Nat.eqb (length (oshape x)) 1 || noflags x
-  | OSqueeze => match c with CMil => false | _ => true end
-  | OEl e => safe_eop c e x
-  | OStack vs => forallb (fun e => safe_eop c e x) vs
-  | _ => true
-  end.
-Fixpoint safe_run (c : cls) (p : list op) (x : obj V) : bool :=
-  match p with
-  | [] => true
-  | o :: r => safe_step c o x &&
-              match step_spec c o x with Some x' => safe_run c r x' | None => true end
-  end.
-
 (* class invariant of an object *)
+Definition noflags (x : obj V) : bool := forallb (fun r => negb (snd r)) (orows x).
 Definition wf_meta (c : cls) (m : meta) : bool :=
   match c with
   | CMis => Z.eqb (phase m) 0 && Z.eqb (fmt m) 0
@@ -587,7 +586,7 @@ Definition l_neg (l : list T) : list T := map (o_opp O) l.
 Definition lvf : vfuns (list T) := mkVfuns (list T) l_unit l_inv l_neg [].
 
 (* Vector3d.azimuth: x[isclose(x, 0)] = 0; y[isclose(y, 0)] = 0 are written
-   into the object's own data before arctan2 *)
+   into COPIES of the x and y columns before arctan2 *)
 Definition isclose0 (x : T) : bool := o_leb O (o_abs O x) (o_ofQ O 1 100000000).
 Definition az_clean (v : list T) : list T :=
   match v with
@@ -604,7 +603,7 @@ Inductive prop_name := PAzimuth | PPure (id : nat).   (* every other public prop
 (* reading a property: the object afterwards *)
 Definition after_read (p : prop_name) (x : obj (list T)) : obj (list T) :=
   match p with
-  | PAzimuth => mkObj (oshape x) (map (fun r => (az_clean (fst r), snd r)) (orows x)) (ometa x)
+  | PAzimuth => x     (* the rounding writes go to copies, not to `data` *)
   | PPure _ => x
   end.
 Definition azimuth_values (x : obj (list T)) : list T := map (fun r => az_value (fst r)) (orows x).
